@@ -27,15 +27,25 @@ def gen_case(rng, tier):
     alphabet = sorted(rng.sample(full, size), key=full.index)
     if not any(not W.is_ice(s) for s in alphabet):
         alphabet.append("H")
+    fmt = rng.choices(["naunet", "kida", "umist"], weights=[7, 2, 1])[0]
     saved = cfg["alphabet"]
     cfg["alphabet"] = alphabet
     try:
-        pool = W.gen_pool(rng, CFG, rng.randint(2, 30 if tier == "quick" else 60), 0)
+        want = rng.randint(2, 30 if tier == "quick" else 60)
+        pool = W.gen_pool(rng, CFG, want if fmt == "naunet" else 3 * want, 0, gas_only=(fmt != "naunet"))
     finally:
         cfg["alphabet"] = saved
     for ar in pool:
         if ar["rtype"] == W.RT_UNKNOWN:
             ar["rtype"] = W.RT_TWOBODY
+    if fmt != "naunet":
+        pool = [ar for ar in pool if fmt in W.formats_for(CFG, ar)][:want]
+        if len(pool) < 2:
+            fmt = "naunet"
+            pool = W.gen_pool(rng, CFG, want, 0)
+            for ar in pool:
+                if ar["rtype"] == W.RT_UNKNOWN:
+                    ar["rtype"] = W.RT_TWOBODY
     opts = {
         "remove_species": [],
         "reduce_by_species": [],
@@ -57,7 +67,7 @@ def gen_case(rng, tier):
     if rng.random() < 0.3:
         opts["reduce_by_species"] = sorted(rng.sample(alphabet, max(2, int(len(alphabet) * rng.uniform(0.5, 0.95)))),
                                            key=alphabet.index)
-    return {"alphabet": alphabet, "pool": pool, "options": opts}
+    return {"alphabet": alphabet, "pool": pool, "options": opts, "informat": fmt}
 
 
 def expected(case):
@@ -122,7 +132,8 @@ def run_case(case, rundir):
     shutil.rmtree(rundir, ignore_errors=True)
     os.makedirs(rundir)
     pool, o = case["pool"], case["options"]
-    lines = [W.encode(CFG, ar, "naunet", 1000 + i) + "\n" for i, ar in enumerate(pool)]
+    fmt = case.get("informat", "naunet")
+    lines = [W.encode(CFG, ar, fmt, 1000 + i) + "\n" for i, ar in enumerate(pool)]
     cwd = os.getcwd()
     os.chdir(rundir)
     try:
@@ -134,10 +145,12 @@ def run_case(case, rundir):
 
             with open("naunet_config.toml", "w") as f:
                 f.write(BaseConfiguration("simproject").content)
-            with open("in.naunet", "w") as f:
+            with open(f"in.{fmt}", "w") as f:
                 f.write("".join(lines))
             spell = W.CONFIGS[CFG]["spell"]
-            args = ["in.naunet", "out.naunet"]
+            args = [f"in.{fmt}", "out.naunet"]
+            if fmt != "naunet":
+                args.append(f"--input-format={fmt}")
             if o["remove_species"]:
                 args.append("--remove-species=" + ",".join(spell[k] for k in o["remove_species"]))
             if o["reduce_by_species"]:
@@ -163,7 +176,7 @@ def run_case(case, rundir):
         if not os.path.exists("out.naunet"):
             return ("extend-no-output", "no output file written")
         out = open("out.naunet").read().splitlines()
-        droppedtxt = open("dropped_reactions.naunet").read() if os.path.exists("dropped_reactions.naunet") else None
+        droppedtxt = open(f"dropped_reactions.{fmt}").read() if os.path.exists(f"dropped_reactions.{fmt}") else None
     finally:
         os.chdir(cwd)
     idm = extend_identity_map()
@@ -213,7 +226,7 @@ def gen_and_run(seed, index, tier, rundir):
     o = case["options"]
     stats = {"remove_species": int(bool(o["remove_species"])), "reduce_by_species": int(bool(o["reduce_by_species"])),
              "remove_duplicate": int(o["remove_duplicate"]), "append_depletion": int(o["append_depletion"]),
-             "desorption": int(any(o[k] for k in RT_DESORB))}
+             "desorption": int(any(o[k] for k in RT_DESORB)), "input_" + case["informat"]: 1}
     surv, dropped, appended = expected(case)
     return {"case": case, "violation": v, "stats": stats,
             "digest": K.digest([len(surv), len(dropped), sorted(map(repr, appended.items())), v[0] if v else None,
